@@ -64,12 +64,13 @@ fn vq_c05_packet_number_wire() {
     assert!(used == announced, "C05/truncated_packet_number.enc/len_eq_announced");
     let mut bytes_ok = true;
     let mut rest_ok = true;
+    unroll!(4, i, {
+        if i < n && out[i] != spec[i] {
+            bytes_ok = false;
+        }
+    });
     unroll!(8, i, {
-        if i < n {
-            if out[i] != spec[i] {
-                bytes_ok = false;
-            }
-        } else if out[i] != before[i] {
+        if i >= n && out[i] != before[i] {
             rest_ok = false;
         }
     });
